@@ -92,8 +92,10 @@ def evaluate(desc, res):
     for p in res["after"]:
         if p not in inputs and p not in okn:
             add("stray-file-created", p, {"op": "present-at-end"})
+    bases = {r[0]: list(r[7]) for r in runner.RULES if r[0] in fixers}
     for v in V:
         v["observed"]["fixers"] = fixers
+        v["observed"]["fixer_bases"] = bases
         v["observed"]["member"] = (desc.get("meta") or {}).get("class")
     return V
 
